@@ -502,3 +502,40 @@ def c04_block_rules(ctx: Ctx) -> None:
         if d.get("frame.toplevel") and d.get("self.extends_so_far > 0"):
             ctx.check(sk.text.lstrip().startswith("if parent_template is None:"), f"guard:{n}", "compiler:CodeGenerator.visit_Block", "top-level block after a possible extends", "a top-level block after a conditional extends must be guarded by `if parent_template is None:`", "src/jinja2/compiler.py")
     ctx.floor("visit_Block paths", n, 20)
+
+
+# ---------------------------------------------------------------------------- C35
+def c35_marker_rule(ctx: Ctx, rid: str) -> None:
+    ctx.rule(rid, "line markers: in every statement visitor, on every path, a new generated line carrying a template node (debug-info entry) is started before the first expression of the statement is emitted")
+    res = get_paths(ctx)
+    model = EmitModel(ctx.repo)
+    n = 0
+    for entry, items in sorted(res.items()):
+        if not entry.startswith("visit_") or entry_kind(model, entry) != "stmt" or entry == "visit_Template":
+            continue
+        bad: Path | None = None
+        what = ""
+        for p, sk in items:
+            if p.outcome != "normal":
+                continue
+            marked = False
+            for ev in p.events:
+                if ev[0] == "nl" and ev[1] is not None:
+                    marked = True
+                elif ev[0] == "visit" and ev[3] == "expr":
+                    n += 1
+                    if not marked:
+                        bad = p
+                        what = ev[1]
+                    break
+                elif ev[0] == "visit" and ev[3] == "stmt":
+                    break  # nested statements carry their own markers
+            if bad:
+                break
+        if bad is not None:
+            ctx.bad(f"compiler:CodeGenerator.{entry}", "expression emitted before any line marker",
+                    f"{entry} emits the expression `{what}` before starting a line that carries a template node [{short_flags(bad, 4)}]: the generated line is attributed to the previous marker, so an exception raised by that expression is reported on an earlier template line",
+                    "src/jinja2/compiler.py")
+        else:
+            ctx.ok(entry)
+    ctx.floor("first expressions of statement visitors", n, 100)
